@@ -802,8 +802,8 @@ def main(tier):
     return run_property(
         PROP, "checks.c05", tier, "translation_validation",
         assumptions=[
-            "S_valid contains only schedules valid beyond dispute: positive-length tasks for order/overlap based rules, no ties, well-formed disjoint interval lists (ambiguous regions raise no alarm)",
-            "completeness composes over elements whose auxiliaries are private (DESIGN 3.2); each element is checked with 1-3 tasks",
+            "S_valid contains only schedules valid beyond dispute: per element, positive-length tasks and no ties for order/overlap based rules (the 'equal_dates' family adds the chained schedules with zero-length tasks), well-formed interval lists (disjoint where the meaning depends on it, merely pairwise different for unavailability and workload); ambiguous regions raise no alarm",
+            "completeness composes over elements whose auxiliaries are private (DESIGN 3.2): each element is checked with 1-3 tasks and symbolic parameters, and the composition itself is checked on a concrete five-task problem, pair by pair over all constraint classes (quick: 33 pairs, thorough: all 1056 ordered pairs), together with 'declared twice' and 'measurements never exclude a schedule'",
             "quantified queries (forall aux) are decided by z3 (MBQI); unknown = inconclusive",
             "periodic constraints: completeness inside a concrete horizon of 12 with every occurrence spelled out (fixed-duration tasks, |offset| <= period); ResourceInterrupted duration accounting is outside the completeness claim",
             "the verdict plumbing of solve() (False iff unsat/unknown) is checked with the solver stub in C13",
